@@ -1,5 +1,84 @@
-(* C10 -- OpenAPI: a request is labelled valid exactly when all its parts conform. (placeholder) *)
-From Fences Require Import OpenApi.
-Theorem C10_placeholder : forall p, is_path p = true <-> p = PPath.
-Proof. intros []; simpl; split; intros H; try discriminate; auto. Qed.
-Print Assumptions C10_placeholder.
+(* C10 -- OpenAPI: a request is labelled valid exactly when all its parts conform.
+   Only statements closed by [exact]; proofs live in OpenApiGraphProofs.v.
+
+   Layers: generate_all is modelled as a plan (OpenApi.v: one group of options per parameter and for
+   the body, tied to generate.py by correspondence stream O) and the graph it builds from the plan
+   (OpenApiGraph.v: plan_graph, tied by stream OG, which also compares the entries generate_paths yields).
+   The JSON pipeline inside SampleCache.add is the parameter [compute]; what it is assumed to deliver --
+   valid samples satisfy the schema, invalid ones do not (C01 / C02), never two empty lists -- is a
+   hypothesis of the conformance theorem, stated in terms of an arbitrary judge [conf]. *)
+From Fences Require Import GraphSpec GraphRun OpenApi OpenApiProofs OpenApiGraph OpenApiGraphProofs.
+
+(* Shape and label: every generated request takes exactly one option in every group of the plan, in
+   order; executing its path applies the leaves of those options and no other leaf; and it is labelled
+   valid exactly when all options taken are flagged valid. *)
+Theorem C10_label : forall pl fuel lr0 lv0 a es st e,
+  (forall gr, In gr pl -> options gr <> []) ->
+  generate_paths V_fixed fuel (plan_graph pl) 0 lr0 lv0 = Ok (a, (es, st)) -> In e es ->
+  exists cs, picks pl (epath e) = Some cs /\ evalid e = forallb fst cs /\
+    Run (plan_graph pl) 0 (epath e)
+        (0 :: match pl with [] => [1] | _ => trace_of (plan_rows pl) 0 (epath e) end) [].
+Proof. exact request_label. Qed.
+Print Assumptions C10_label.
+
+(* The statement of C10 for the label: for an operation whose sample lists were obtained without error,
+   every generated request takes one option per part of the operation (the parameters in order, then the
+   body), never leaves a path parameter out (so make_path has a value for every declared placeholder),
+   and is labelled valid exactly when every value it carries satisfies its schema and every part it
+   leaves out is optional. *)
+Theorem C10_label_conforms : forall compute conf,
+  (forall k b s, compute k b = Ok s ->
+     (forall x, In x (fst s) -> conf k b x = true) /\ (forall x, In x (snd s) -> conf k b x = false)) ->
+  (forall k b s, compute k b = Ok s -> fst s <> [] \/ snd s <> []) ->
+  forall op pl fuel lr0 lv0 a es st e,
+  generate_all_pure compute op [] = Ok pl ->
+  generate_paths V_fixed fuel (plan_graph pl) 0 lr0 lv0 = Ok (a, (es, st)) -> In e es ->
+  exists cs, picks pl (epath e) = Some cs /\
+    Forall2 (fun pt c => snd c = COmit -> snd pt <> None) (parts_of op) cs /\
+    (evalid e = true <-> Forall2 (fun pt c => part_ok conf pt (snd c) = true) (parts_of op) cs).
+Proof. exact request_label_conforms. Qed.
+Print Assumptions C10_label_conforms.
+
+(* ... whatever the cache went through before (C18): generate_all with a used cache returns that plan *)
+Theorem C10_plan_of_generate_all : forall compute h op,
+  snd (generate_all (mkOV true) compute (run_history (mkOV true) compute h) op []) =
+  generate_all_pure compute op [].
+Proof.
+  intros compute h op. rewrite cache_transparent_all.
+  exact (proj2 (generate_all_spec compute empty_cache op [] (Inv_empty compute))).
+Qed.
+Print Assumptions C10_plan_of_generate_all.
+
+(* The enumeration ends for every sufficiently large recursion budget, and every option of every group
+   -- each valid sample, each invalid sample, the omission -- is taken by some generated request. *)
+Theorem C10_cover : forall pl lr0 lv0,
+  (forall gr, In gr pl -> options gr <> []) ->
+  exists F a es, forall fuel, F <= fuel ->
+    generate_paths V_fixed fuel (plan_graph pl) 0 lr0 lv0 = Ok (a, (es, Ok tt)) /\
+    forall j gr i, nth_error pl j = Some gr -> i < length (options gr) ->
+      exists e, In e es /\ nth_error (epath e) j = Some i.
+Proof. exact request_cover. Qed.
+Print Assumptions C10_cover.
+
+(* every choice of one option per group is a complete run of the graph (the graph offers every request) *)
+Theorem C10_any_choice : forall pl p cs, pl <> [] -> picks pl p = Some cs ->
+  Run (plan_graph pl) 0 p (0 :: trace_of (plan_rows pl) 0 p) [].
+Proof. exact request_any_choice. Qed.
+Print Assumptions C10_any_choice.
+
+Definition c10_compute (k : key) (b : bool) : res samples := Ok ([10 + k], [20 + k]).
+Definition c10_op := mkOp 0 [mkParam 1 PPath true 1; mkParam 2 PQuery false 2] (Some (3, true)).
+Definition c10_plan : plan :=
+  match generate_all_pure c10_compute c10_op [] with Ok pl => pl | _ => [] end.
+
+(* non-vacuity: an operation with a path parameter, an optional query parameter and a required body meets
+   every premise; 6 requests are generated, 2 of them labelled valid *)
+Example C10_nonvacuous :
+  (forall gr, In gr c10_plan -> options gr <> []) /\
+  exists es, gp_entries V_fixed 50 (plan_graph c10_plan) 0 = Some (es, Ok tt) /\
+    length es = 6 /\ length (filter evalid es) = 2.
+Proof.
+  split.
+  - intros gr H. vm_compute in H. destruct H as [<-|[<-|[<-|[]]]]; discriminate.
+  - eexists. split; [vm_compute; reflexivity|]. split; reflexivity.
+Qed.
